@@ -117,6 +117,16 @@ pub fn evidence_json(st: &Stats, m: &EvidenceMeta) -> J {
                 ("max_derivative_calls_after_failing_call", J::U(st.calls_after_fire_max)),
                 ("max_ok_items_after_failing_call", J::U(st.ok_after_fire_max)),
                 ("distinct_fault_sites", J::U(st.sites.len() as u64)),
+                (
+                    "distinct_fault_sites_by_solver",
+                    J::O(crate::spec::KINDS
+                        .iter()
+                        .map(|k| {
+                            let n = st.sites.iter().filter(|s| (**s >> 48) as usize == k.idx()).count();
+                            (k.name().to_string(), J::U(n as u64))
+                        })
+                        .collect()),
+                ),
                 ("fault_site_measure", J::s("distinct (solver, index of the next() call in the reference run capped at 24, position of the failing call inside that next(), result kind of that next(), log2 of the derivative calls made by that next(), offset inside that next() capped at 255)")),
             ]),
         ),
